@@ -806,6 +806,20 @@ def sweep_update(ctx, rng, x, other):
         res = judge_update(x, before, kw, r)
     if res not in (None, 'skip'):
         ctx.violation(*res)
+        return
+    # the new value is a value of its own: editing a list it holds (the ordinary `c.vlan.append(...)`) leaves the original untouched
+    lists = [k for k, v in r.__dict__.items() if isinstance(v, list) and k not in kw]
+    if lists:
+        ctx.count('update:list-field-independence')
+        try:
+            t0 = x.to_json()
+            for k in lists:
+                getattr(r, k).append('__edited__')
+            if x.to_json() != t0:
+                ctx.violation('C03/update-shares-list-with-original', 'the copy-with-changes operation returns a new value and leaves the original '
+                              'untouched (the two do not share their list-valued fields)', dict(w, fields=lists, original_now=short(x.to_json())))
+        except Exception as e:
+            ctx.violation('C03/update-raises', f'{type(e).__name__}: {e}'[:200], w)
 
 
 def sweep_tags(ctx, rng, x):
